@@ -62,7 +62,7 @@ CHECKS["C20"] = ("four-line trailing-mean specification vs smoothed outputs; bou
 CHECKS["C08"] = ("order of a sorted run judged against the PUBLIC measure of an un-ordered reference run: fixed brackets, monotone body, NaN-last, subtotal group, fallback = anchored specification (Hypothesis)",
     "Generated-input search over every sortable measure keyword (33), marginal keyword (7), strand keyword (13), label sort, both directions, fixed lists with repeats and stale ids, hide/prune, rows and columns, slices and strands; unresolvable keys (unknown element / insertion id, measure not in the response, undefined marginal) must give the anchored payload order of the C07 specification.",
     "Population keywords only with fraction 1 and positive population; ties are free (non-strict monotonicity).", "6 C08")
-CHECKS["C18"] = ("Hypothesis rule-based state machine over shared argument objects vs a history-free reference; dict / JSON / envelope / JSON-of-envelope forms; sampled 8-thread schedules; re-use of responses across cube sets; cross-process evaluation under different PYTHONHASHSEED values",
+CHECKS["C18"] = ("Hypothesis rule-based state machine over shared argument objects vs a history-free reference; dict / JSON / envelope / JSON-of-envelope forms; sampled 8-thread schedules; re-use of responses across cube sets; permuted / reversed full reads vs per-output fresh cubes; cross-process evaluation under different PYTHONHASHSEED values",
     "Model-based stateful search: cubes and cube sets are built repeatedly on ONE shared response (dict, JSON text, {'value':...} envelope around the same dict) and ONE shared transforms dict; random histories of reads (every public lazyproperty, pairwise and order methods, cube and cube-set properties) with re-reads and interleavings across partitions / cubes; each value must equal the value a fresh cube on pristine deep copies gives for that single read. The reference is itself tied to respondents (embedded C01 check). Sampled thread schedules found two genuine races (fixed).",
     "Thread schedules are sampled, never enumerated: a race can be found, not excluded. Hypothesis replay-divergence is reported as a violation because the harness is deterministic.", "6 C18")
 CHECKS["C19"] = ("metamorphic relation across spellings of one array item (alias / sub-variable id / element id int+str / zero-based position; datetime position id / value) in every reference-taking slot; unmatched references ignored (Hypothesis)",
